@@ -53,6 +53,17 @@ impl Command for CommandImpl {
                 };
 
                 if source_file && target_file {
+                    let same_file = match (source_path.canonicalize(), target_path.canonicalize())
+                    {
+                        (Ok(source), Ok(target)) => source == target,
+                        _ => false,
+                    };
+                    if same_file {
+                        return CommandResult::Error(
+                            "Source and target are the same file.".to_string(),
+                        );
+                    }
+
                     match create_parent(&target_path) {
                         Ok(_) => {
                             let options = fs_extra::file::CopyOptions::new().overwrite(true);
